@@ -35,6 +35,8 @@ type YieldRec struct {
 	Failed   bool
 	Pos      string
 	Readonly bool
+	Payload  Value
+	Batch    bool
 }
 
 type CmdRec struct {
@@ -42,6 +44,8 @@ type CmdRec struct {
 	Spec   *CmdSpec
 	Args   []Term
 	Result Value
+	Cmd    TV
+	Eval   *cmdEval
 }
 
 type GhostDB struct {
@@ -60,6 +64,9 @@ type GhostDB struct {
 	txLog      []string
 	execLog    []execRec
 	lastSetHit *setHit
+	setReads   []*setRead
+	calleeLin  []*linPoint
+	now0       Term
 }
 
 func NewGhostDB(x *Exec, st *State, schema *Schema) *GhostDB {
@@ -200,6 +207,9 @@ func (g *GhostDB) advanceClock(st *State) {
 		st.assume(Ge(g.now, old))
 	}
 	st.assume(And(Ge(g.now, IntLit(0)), Le(g.now, Term{"9223372036854775807", SInt})))
+	if g.now0.S == "" {
+		g.now0 = g.now
+	}
 }
 
 func (g *GhostDB) atOpaqueCall(x *Exec, st *State, fr *Frame, c *callCtx, ct *Contract) {
